@@ -29,8 +29,34 @@ TOKEN_READERS = ["selection::read_function_name", "extractor::ExtractFromInput::
                  "variables_extractor::parse_get_variable", "input_context_extractor::parse_input_context"]
 
 
+SPLITTERS = ("clap::Arg::value_delimiter", "clap::Arg::value_terminator", "clap::Arg::raw", "clap::Arg::trailing_var_arg",
+             "clap::Arg::last")
+
+
+def option_text_whole(rep, lib, rid="C13-OPTION-TEXT"):
+    """The text of an option reaches its parser as the user wrote it: the command-line layer does not split it."""
+    r = rep.rule(rid, "the command-line layer hands every option value to its parser whole: no argument is declared "
+                 "with a value delimiter / terminator (an expression may contain commas wherever it is written)",
+                 floor=1, analysis="A7 census of the clap builder calls in the derived augment_args bodies")
+    bodies = [(n, b) for n, b in lib.bodies.items() if "clap::Args>::augment_args" in n]
+    if not bodies:
+        r.missing("<Cli as clap::Args>::augment_args")
+        return
+    bad = [(n, c) for n, b in bodies for c in b.calls if (c.name or "") in SPLITTERS]
+    if bad:
+        for n, c in bad:
+            r.bad("%s#%s" % (n.split(" as ")[0].lstrip("<"), (c.name or "").rsplit("::", 1)[-1]),
+                  "an option is declared with %s: its value is cut into pieces before the expression reader sees it, "
+                  "so the same expression (a comma between arguments, in a string or an array) means something else "
+                  "in this option than in the others" % c.name, c.where())
+    else:
+        r.ok("augment_args", "%d derived bodies, no splitting builder call" % len(bodies), bodies[0][1].where())
+    return r
+
+
 def run(ctx, rep):
     dot_sugar(rep, ctx.lib)
+    option_text_whole(rep, ctx.lib)
     from rules import c11 as _c11
     _c11.get_pure(rep, ctx.lib)
     # bindings made by --set are in scope for every option: the --set stage is outermost (shared with C03)
